@@ -10,6 +10,8 @@ sys.path.insert(0, VERIF)
 sys.path.append(os.path.join(VERIF, "build", "deps"))
 
 LEVEL = {
+    "C01": ("For every (crystal variant, supercell matrix, primitive matrix) prefix of the alphabets and every displacement/solver option tuple within the deviation bound, phonopy generates displacements, receives the exact harmonic forces of a closed-form pair-spring crystal and must return that crystal's folded supercell force constants (full and compact) to 2e-9.",
+            "3.C01", "vtk/ref/springs.py (self-checked: sum rule, permutation symmetry, isometry invariance); built-in finite-displacement solver only"),
     "C04": ("Every supercell / primitive-cell construction in a complete product of small alphabets (all 19683 matrices over {-1,0,1}, HNF det<=4, 16-32 crystals x 4 atom-order/offset variants, both algorithms, all centrings incl. non-tiling ones) is executed on the real constructors and judged by an exact integer coset oracle.",
             "3.C04", "numpy; vtk/ref/lattice.py (self-checked by brute force at start); fractional tolerance 1e-8"),
 }
